@@ -94,7 +94,7 @@ def expected(events, cfg=None):
                 rx = c["member_parameter_name_strip_regex"]
                 params = [re.sub(rx, "", p) for p in ev.get("params", [])]
                 types = list(ev.get("types", []))
-                m = {"name": nm if k == "cpp_member" else "CTOR", "params": params, "types": types,
+                m = {"name": nm if k == "cpp_member" else ev.get("ctor", "CTOR"), "params": params, "types": types,
                      "macro": ev.get("impl", "function") == "macro", "doc": dl, "src": i}
                 cls["entry"]["ctors" if k == "cpp_constructor" else "methods"].append(m)
             stack.append({"kind": k, "idx": i, "entry": None, "orphan_impl": not is_shown})
